@@ -163,9 +163,15 @@ func runMutants(ms []Mutant, prop, repo, out string, par int) []mutResult {
 			if err != nil || json.Unmarshal(b, &r) != nil {
 				r = mutResult{m.ID, "invalid", fmt.Sprintf("subprocess: %v", err)}
 			}
-			if m.Survives && r.Status == "survived" {
-				r.Status = "n/a"
-				r.Detail = "documented as not detectable by static analysis: " + m.Note
+			if m.Survives {
+				// behaviour-preserving (or out-of-reach) edit: the checker must stay silent
+				switch r.Status {
+				case "survived":
+					r.Status = "n/a"
+					r.Detail = "silent as required: " + m.Note
+				case "killed", "wrong-obligation":
+					r.Status = "false-alarm"
+				}
 			}
 			res[i] = r
 		}(i, m)
